@@ -73,6 +73,19 @@ def run_verus_unit(unit_name, prop, tier, only=None):
         results.append(Res('%s::<count>' % unit_name, 'verus', 'infra', [prop] if prop else [], 'extractor', 0,
                            'obligation count changed: registered %d, generated %d' % (expected, len(u['obligations']))))
     udir = os.path.join(BUILD, 'verus', unit_name)
+    texts, excluded = ve.precheck(texts, udir)
+    info['outside_subset'] = excluded
+    if excluded:
+        keep = []
+        for o in obls:
+            fn = o.fn_pattern.split('::')[-1]
+            if fn in excluded:
+                results.append(Res(o.name, 'verus', 'undecided', o.props, 'z3 (Verus)', 0,
+                                   'the function uses a construct outside the verifier subset (%s): not decided by Verus; see the bounded leg' % excluded[fn], kind=o.kind))
+                log('  [undecided] %-70s outside the verifier subset: %s' % (o.name, excluded[fn][:80]))
+            else:
+                keep.append(o)
+        obls = keep
     ve.run_obligations(obls, texts, udir, log=log)
     # canaries: every function under contract must FAIL with assert(false) injected at its start
     canaries = []
@@ -81,6 +94,8 @@ def run_verus_unit(unit_name, prop, tier, only=None):
         inj = ve.Injector(texts['base'], rsx.Trace())
         ok_fns = []
         for f in can_fns:
+            if f.split('::')[-1] in excluded:
+                continue
             try:
                 inj.proof(f, '$START', '        proof { assert(false); } /*canary*/')
                 ok_fns.append(f)
